@@ -28,6 +28,7 @@ CLOSED = ["0.5", "1.25", "3", "0.001", "pi", "-pi", "pi/2", "3*pi/4", "-pi/4", "
 FORMALS = ["theta", "phi", "lam", "alpha", "x", "t", "gamma", "w", "pie", "e"]
 QFORMALS = ["a", "b", "c", "d"]
 DEFNAMES = ["my0", "my1", "blk", "g2", "rot", "ent"]
+HIJACK = ["h", "s", "ecr", "cx", "rx"]
 
 
 def dir_gates():
@@ -166,7 +167,10 @@ def gen_program(rng, kind):
             nq, nf = LABELS[name]
         if err and rng.random() < 0.05 and name != "id":
             nf = max(0, nf + rng.choice([-1, 1]))
-        if err and rng.random() < 0.03 and nq + 1 <= len(names_q):
+        # a surplus qubit operand is generated for user-defined names only (definite arity
+        # error): a built-in constructor would take it for a parameter (`rx a,b` =
+        # RX(a, theta=b)), which no reading of the program as QASM describes
+        if err and rng.random() < 0.05 and nq + 1 <= len(names_q) and name in visible and name not in HIJACK:
             nq += 1
         if err and rng.random() < 0.03:
             name = "nodef"
@@ -205,17 +209,16 @@ def gen_program(rng, kind):
         if kind == "redefine" and d >= 2 and rng.random() < 0.7:
             name = rng.choice(pool[:d])  # a second definition of an earlier name
         if kind == "hijack" and d == 0:
-            name = rng.choice(["h", "s", "ecr", "cx", "rx"])
+            name = rng.choice([h for h in HIJACK if {"ecr": 2, "cx": 2}.get(h, 1) <= n])
         nf = rng.randint(0, 3)
         formals = rng.sample(FORMALS, nf)
         nqf = rng.randint(1, min(3, n))
         if kind == "unused":
             nqf = min(n, nqf + 1)
-        if kind == "hijack" and d == 0 and rng.random() < 0.75:
+        if kind == "hijack" and d == 0:
             # same arity as the built-in gate: the program is accepted and the class wins
             hq, hp = {"ecr": (2, 0)}.get(name, LABELS.get(name, (1, 0)))
-            if hq <= n:
-                nqf, formals = hq, rng.sample(FORMALS, hp)
+            nqf, formals = hq, rng.sample(FORMALS, hp)
         qf = QFORMALS[:nqf]
         rng.shuffle(qf)
         body = [call(qf, formals, False) for _ in range(rng.randint(1, 3 if kind != "unused" else 2))]
